@@ -141,6 +141,13 @@ pub fn apply(w: &mut RouterWorld, cfg: &Cfg, a: &Act) {
             }
             w.send(ci, v);
         }
+        Act::RelProps { c } => {
+            let ci = *c as usize;
+            if w.clients[ci].q2.front().is_some_and(|e| e.1) {
+                let (pkid, _) = w.clients[ci].q2.pop_front().unwrap();
+                w.send(ci, vec![Tx::PubRelProps(pkid)]);
+            }
+        }
         Act::Rel { c } => {
             let ci = *c as usize;
             if let Some(pos) = w.clients[ci].q2.iter().position(|e| e.1) {
@@ -258,7 +265,7 @@ pub fn make_publish(w: &mut RouterWorld, cfg: &Cfg, ci: usize, t: u8, qos: u8, r
         retain,
         dup: false,
         pkid,
-        payload: RouterWorld::payload_for(tag, empty),
+        payload: RouterWorld::payload_for(tag, empty, w.pad),
         props: if w.clients[ci].v5 { prop_table(props) } else { None },
     }
 }
@@ -440,6 +447,9 @@ fn rel_actions(w: &RouterWorld, cs: &[u8], v: &mut Vec<(Act, u8)>) {
     for &c in cs {
         if live(w, c) && w.clients[c as usize].q2.front().is_some_and(|e| e.1) {
             v.push((Act::Rel { c }, 0));
+            if w.clients[c as usize].v5 && w.prop == "C06" {
+                v.push((Act::RelProps { c }, 0));
+            }
         }
     }
 }
@@ -906,8 +916,21 @@ fn enabled_c01(w: &RouterWorld, cfg: &Cfg, v: &mut Vec<(Act, u8)>) {
     let (sub_qos, pub_qos): (&[u8], &[u8]) = match cfg.variant {
         0 => (&[0, 1], &[0, 1]),
         1 => (&[1, 2], &[1, 2]),
+        // tiny segments (retention proviso): subscribers may stall and fall behind
+        3 => (&[0, 1], &[0]),
         _ => (&[0, 2], &[0, 1, 2]),
     };
+    if cfg.variant == 3 {
+        for c in [2u8, 3u8] {
+            if let Some(l) = w.clients[c as usize].link.as_ref() {
+                if l.stalled {
+                    v.push((Act::Unstall { c }, 0));
+                } else if active_subs(w, c) > 0 {
+                    v.push((Act::Stall { c }, 0));
+                }
+            }
+        }
+    }
     let subs = [2u8, 3u8];
     let pubs = [0u8, 1u8];
     for &c in pubs.iter() {
